@@ -213,7 +213,8 @@ pub enum Ev {
     Fwd { dims: Vec<usize>, vals: Vec<f64>, keep_output: bool, twice: bool, #[serde(default)] input_slot: Option<Slot> },
     /// start/stop tracking on a layer's own parameter handle (only legal between model sessions)
     Freeze { layer: usize, param: usize, on: bool },
-    Bwd { dims: Vec<usize>, vals: Vec<f64> },
+    /// `target_slot`: keep a handle of the target in this slot (to probe its release later)
+    Bwd { dims: Vec<usize>, vals: Vec<f64>, #[serde(default)] target_slot: Option<Slot> },
     Upd,
     ModelClose,
     TrainClose,
